@@ -10,7 +10,8 @@ Three layers.
    printed interpolant `I` of a split (A, B), the sets `A ∪ {¬I}` and `{I} ∪ B` (and for sequences `{I_j} ∪ G ∪ {¬I_{j+1}}`);
    an `unsat` verdict is accepted only when the Lean machine accepts the trace of that run, which by `Smt.unsat_sound`
    makes the set unsatisfiable.  These theorems unfold two such facts into Craig's conditions.
-2. `C08_labelled_interpolation_sound` (+ `_symbols`): for every resolution refutation over A ∪ B and every labelling
+2. `C08_labelled_interpolation_sound` (+ `_symbols`): for every resolution refutation over A ∪ B (leaves from A, from B, and
+   theory lemmas that come with a partial interpolant satisfying the two leaf conditions, `Node.leafT`) and every labelling
    (McMillan, Pudlák, McMillan', proof-sensitive variants are instances), the root partial interpolant is implied by A,
    inconsistent with B, and over shared variables.  All proofs, all labellings.
 3. `C08_farkas_interpolant` / `C08_farkas_dual_interpolant`: for LRA conflicts, the weighted sum of the A-part of a Farkas
@@ -102,6 +103,25 @@ example :
     let lab : Itp.Var → Itp.Lbl := fun _ => ⟨false, true⟩
     let n := Itp.Node.res (.leafA [⟨0, false⟩] lab) (.leafB [⟨0, true⟩] lab) 0
     n.clause = [] ∧ n.itp.eval (fun _ => true) = true ∧ n.itp.eval (fun _ => false) = false := by decide
+
+/-- non-vacuity with a theory lemma: atom 0 stands for x ≤ 0, atom 1 for x ≥ 1, the assignments of interest satisfy the lemma
+¬0 ∨ ¬1; A = {0}, B = {1}; the lemma's partial interpolant is the A-literal 0, and so is the root interpolant -/
+example :
+    let T : Itp.Asg → Prop := fun σ => ¬ (σ 0 = true ∧ σ 1 = true)
+    let lab : Itp.Var → Itp.Lbl := fun v => if v = 0 then ⟨true, false⟩ else ⟨false, true⟩
+    let n := Itp.Node.res (.leafB [⟨1, false⟩] lab)
+      (.res (.leafA [⟨0, false⟩] lab) (.leafT [⟨0, true⟩, ⟨1, true⟩] lab (.lit ⟨0, false⟩)) 0) 1
+    n.structOk = true ∧ n.clause = [] ∧ n.leavesOk (fun σ => T σ ∧ σ 0 = true) (fun σ => T σ ∧ σ 1 = true) := by
+  refine ⟨by decide, by decide, ?_⟩
+  simp only [Itp.Node.leavesOk]
+  refine ⟨?_, ?_, ?_, ?_⟩
+  · intro σ h; simp [Itp.cEval, Itp.Lit.eval, h.2]
+  · intro σ h; simp [Itp.cEval, Itp.Lit.eval, h.2]
+  · intro σ h _; simp [Itp.F.eval, Itp.Lit.eval, h.2]
+  · intro σ h _
+    have := h.1
+    simp [h.2] at this
+    simp [Itp.F.eval, Itp.Lit.eval, this]
 
 /-- **C09, algorithm level.**  Sequence interpolants computed from one refutation by a labelled interpolation system with fitting
 labels satisfy the path condition between consecutive cuts: I_j together with the middle group implies I_{j+1}. -/
